@@ -281,6 +281,7 @@ impl Format {
 
                 let sub_str = &s[prev_idx..end_idx];
                 let before = decomposed;
+                let (day_of_year_before, weekday_before) = (day_of_year, weekday);
 
                 match prev_token {
                     Token::YearShort => {
@@ -394,6 +395,15 @@ impl Format {
                     Token::MonthName | Token::MonthNameShort => Some(1),
                     token => token.gregorian_position(),
                 };
+                // (the day of year and the weekday are not kept in the array of fields)
+                if (day_of_year_before.is_some() && day_of_year_before != day_of_year)
+                    || (weekday_before.is_some() && weekday_before != weekday)
+                {
+                    return Err(HifitimeError::Parse {
+                        source: ParsingError::ValueError,
+                        details: "field given twice with different values",
+                    });
+                }
                 if let Some(pos) = position {
                     if seen[pos] && before[pos] != decomposed[pos] {
                         return Err(HifitimeError::Parse {
